@@ -76,6 +76,15 @@ Theorem C07_second_removal_noop : forall cfg rec c s, m_reg (find_mod c (mods s)
   remove_module_with cfg rec c s = Ok tt s.
 Proof. intros cfg rec c s H. unfold remove_module_with, bind, get. rewrite H. reflexivity. Qed.
 
+(* "its module id and name can be reused immediately": the uniqueness scan of a later connection request and the
+   in-use list of the dynamic-id assignment range over `registered s` only, and a departed module is not in it *)
+Theorem C07_id_and_name_free : forall s m, In m (registered s) -> m_reg m = true.
+Proof. intros s m H. unfold registered in H. apply filter_In in H. tauto. Qed.
+
+Theorem C07_departed_not_in_use : forall cfg fuel es u s, run cfg fuel es = Ok u s ->
+  forall c, m_reg (find_mod c (mods s)) = false -> ~ In (find_mod c (mods s)) (registered s).
+Proof. intros cfg fuel es u s _ c Hr Hin. apply C07_id_and_name_free in Hin. congruence. Qed.
+
 (* non-vacuity: a subscriber whose write fails during a delivery is gone afterwards, the other
    subscriber still got the message, and one CLIENT_CLOSED was published (to the monitor, conn 3) *)
 Definition Hs (t : Z) : hdr := mkHdr t 1 0 0 0 0 4 7.
